@@ -726,11 +726,7 @@ func (pe *PolicyEngine) ConvertPeerNamedPort(namedPort string, peer Peer) (proto
 // AddPodByNameAndNamespace adds a new fake pod to the pe.podsMap, used for adding ingress-controller pod
 func (pe *PolicyEngine) AddPodByNameAndNamespace(name, ns string) (Peer, error) {
 	podStr := types.NamespacedName{Namespace: ns, Name: name}.String()
-	newPod := &k8s.Pod{
-		Name:      name,
-		Namespace: ns,
-		FakePod:   true,
-	}
+	newPod := k8s.NewFakePod(name, ns)
 	if err := pe.resolveSingleMissingNamespace(ns); err != nil {
 		return nil, err
 	}
